@@ -74,8 +74,9 @@ def make_scene(rng, tier):
         nz = rng.random((K, T))
         g = (1 - blur) * onehot + blur * nz / nz.sum(0, keepdims=True)
         init[f] = g[perm[f]]
+    metric = str(rng.choice(['cos', 'cos', 'euclidean', 'multiply']))       # every similarity metric the aligner documents
     return {'y': y, 'images': images, 'noise': noise, 'lab': lab, 'init': init, 'plan': plan, 'perm': perm,
-            'K': K, 'D': D, 'F': F, 'T': T}
+            'K': K, 'D': D, 'F': F, 'T': T, 'metric': metric}
 
 
 def run_chain(sc, model_name, iterations=20):
@@ -86,7 +87,7 @@ def run_chain(sc, model_name, iterations=20):
     model, _ = mm.fit(model_name, data, init, iterations=iterations)
     post = mm.predict(model_name, model, data)                   # (F, K, T)
     mask = np.transpose(post, (1, 0, 2))                         # (K, F, T)
-    dhtv = DHTVPermutationAlignment(main_iterations=20, sub_iterations=2, similarity_metric='cos', **sc['plan'])
+    dhtv = DHTVPermutationAlignment(main_iterations=20, sub_iterations=2, similarity_metric=sc.get('metric', 'cos'), **sc['plan'])
     mapping = dhtv.calculate_mapping(mask)
     aligned = dhtv.apply_mapping(mask, mapping)
     ref = np.broadcast_to(np.eye(K)[sc['lab']].T[:, None, :], (K, F, T))
@@ -128,8 +129,14 @@ def evaluate(rp, rng):
         Pt = get_power_spectral_density_matrix(Y, tmask)
         Pn = get_power_spectral_density_matrix(Y, nmask)
         for bf in rp['bf_names']:
+            kw = {}
+            if rp.get('bf_eig', {}).get(bf):
+                # documented option: the general eigen-solver (unordered eigenvalues) instead of eigh
+                kw = {'atf_kwargs': {'use_eig': True}} if bf.startswith('rank1_gev+') and not bf.endswith('gev') else {'use_eig': True}
+                if bf.startswith('rank1_gev+gev'):
+                    kw = {'use_eig': True, 'atf_kwargs': {'use_eig': True}}
             try:
-                w = get_bf_vector(bf, Pt, Pn)
+                w = get_bf_vector(bf, Pt, Pn, **kw)
             except Exception as e:
                 return 'get_bf_vector(%s) raised %s: %s' % (bf, type(e).__name__, str(e)[:160]), 'pipeline:bf-raises:%s' % bf, None
             if not np.all(np.isfinite(w)):
@@ -180,8 +187,10 @@ def make(rng, tier, model=None):
     sc = make_scene(rng, tier)
     name = model or ['cacgmm', 'cwmm'][int(rng.integers(0, 2))]
     names = list(BF_NAMES) if tier == 'thorough' else [BF_NAMES[int(i)] for i in rng.permutation(len(BF_NAMES))[:5]]
-    rp = {'model': name, 'scene': sc, 'bf_names': names}
-    label = 'scene %s K=%d D=%d F=%d T=%d plan=%s' % (name, sc['K'], sc['D'], sc['F'], sc['T'], sc['plan'])
+    bf_eig = {bf: bool(rng.random() < 0.4) for bf in names if 'gev' in bf}
+    rp = {'model': name, 'scene': sc, 'bf_names': names, 'bf_eig': bf_eig}
+    label = 'scene %s K=%d D=%d F=%d T=%d metric=%s plan=%s use_eig=%s' % (name, sc['K'], sc['D'], sc['F'], sc['T'], sc['metric'], sc['plan'],
+                                                                        sorted(b for b, v in bf_eig.items() if v))
     fail, key, coq = evaluate(rp, rng)
     nt = bool((sc['perm'] != sc['perm'][0]).any())
     return Case(label, coq=coq, pred_fail=fail, key=key, nontrivial=nt, digest_=core.digest(label, sc['y']),
